@@ -36,11 +36,17 @@ type Validator struct {
 
 // validationContext holds current validation context.
 type validationContext struct {
-	function       *Function
-	functionName   string
-	loopDepth      int
-	inContinuing   bool
-	expressionUsed map[ExpressionHandle]bool
+	function     *Function
+	functionName string
+	loopDepth    int
+	switchDepth  int
+	// breakBlocked / continueBlocked are set while validating a continuing block, for
+	// statements whose target would be the loop that owns it: a nested switch or loop
+	// re-enables break, a nested loop re-enables continue.
+	breakBlocked    bool
+	continueBlocked bool
+	inContinuing    bool
+	expressionUsed  map[ExpressionHandle]bool
 }
 
 // Validate checks the IR module for correctness.
@@ -534,6 +540,9 @@ func (v *Validator) validateStatement(index int, stmt *Statement) {
 			v.addErrorInStatement(index, fmt.Sprintf("selector expression %d does not exist", kind.Selector))
 		}
 		hasDefault := false
+		oldBreakBlocked := v.context.breakBlocked
+		v.context.switchDepth++
+		v.context.breakBlocked = false // break inside a switch leaves the switch
 		for _, c := range kind.Cases {
 			if _, ok := c.Value.(SwitchValueDefault); ok {
 				if hasDefault {
@@ -543,20 +552,26 @@ func (v *Validator) validateStatement(index int, stmt *Statement) {
 			}
 			v.validateBlock(c.Body)
 		}
+		v.context.switchDepth--
+		v.context.breakBlocked = oldBreakBlocked
 		if !hasDefault {
 			v.addErrorInStatement(index, "switch missing default case")
 		}
 
 	case StmtLoop:
 		oldDepth := v.context.loopDepth
+		oldBreakBlocked, oldContinueBlocked := v.context.breakBlocked, v.context.continueBlocked
 		v.context.loopDepth++
+		v.context.breakBlocked, v.context.continueBlocked = false, false
 
 		v.validateBlock(kind.Body)
 
 		oldContinuing := v.context.inContinuing
 		v.context.inContinuing = true
+		v.context.breakBlocked, v.context.continueBlocked = true, true
 		v.validateBlock(kind.Continuing)
 		v.context.inContinuing = oldContinuing
+		v.context.breakBlocked, v.context.continueBlocked = oldBreakBlocked, oldContinueBlocked
 
 		if kind.BreakIf != nil {
 			if !v.isValidExpressionHandle(*kind.BreakIf) {
@@ -567,10 +582,10 @@ func (v *Validator) validateStatement(index int, stmt *Statement) {
 		v.context.loopDepth = oldDepth
 
 	case StmtBreak:
-		if v.context.loopDepth == 0 {
-			v.addErrorInStatement(index, "break outside of loop")
+		if v.context.loopDepth == 0 && v.context.switchDepth == 0 {
+			v.addErrorInStatement(index, "break outside of loop or switch")
 		}
-		if v.context.inContinuing {
+		if v.context.breakBlocked {
 			v.addErrorInStatement(index, "break in continuing block")
 		}
 
@@ -578,7 +593,7 @@ func (v *Validator) validateStatement(index int, stmt *Statement) {
 		if v.context.loopDepth == 0 {
 			v.addErrorInStatement(index, "continue outside of loop")
 		}
-		if v.context.inContinuing {
+		if v.context.continueBlocked {
 			v.addErrorInStatement(index, "continue in continuing block")
 		}
 
